@@ -23,6 +23,7 @@ RULE = (
     "1e+-300, +-inf, NaN-free) pushed through save/load of the JSON/CSV/HDF5 and of the SQLite back-end, on empty and "
     "pre-populated folders. Non-trivial = >= 2 batches saved and (pre-populated folder or a float that is not "
     "shortest-repr friendly); distinct by operation-history hash."
+    ' In the tuple round trips the saving-folder and model-name strings include numeric-looking ("20240927", "0012", "3.10", "1e5"), quoted, padded and non-ASCII spellings.'
 )
 ASSUMPTIONS = [
     "fitted third-party estimator objects held by surrogate samplers are excluded from the canonical state",
